@@ -215,10 +215,13 @@ def ne_ite_then : Schema := { name := "N13.ne_ite_then", lhs := fun p => .app .n
 
 def iteCmp : List Schema := [eq_ite_then, eq_ite_else, ne_ite_else, ne_ite_then]
 
-def all : List Schema := base ++ widthy ++ iteCmp
+/-- byte reversal is an involution, hence injective -/
+def revRules : List Schema := [rev_rev, eq_rev]
+
+def all : List Schema := base ++ widthy ++ iteCmp ++ revRules
 
 /-- schemas transcribed from the code whose soundness theorem is not proved yet (used for matching only) -/
-def unproved : List Schema := [eq_rev, rev_rev]
+def unproved : List Schema := []
 
 end R
 
